@@ -3,9 +3,10 @@
    operation |fl(t) - t| <= u |t| + eta (valid for *, +, - of finite binary32/binary64 values
    when the result does not overflow), including the clamp at zero; (2) the executable [e_next]
    dominates the real recurrence (so rounding the bound up to 64 bits is sound).
-   NOT proved (hence `c11_drift_bound_partial`): the induction that instantiates (1) with Flocq's
-   Bmult/Bplus/Bminus along the model run (relative_error_N_FLT_ex for each operation and the
-   window bookkeeping tying the evicted float square to the evicted exact square). *)
+   The induction that instantiates (1) with Flocq's Bmult/Bplus/Bminus along the model run
+   (Relative.error_N_FLT for each operation and the window bookkeeping tying the evicted float
+   square to the evicted exact square) is in RmsDriftProofs.v (`c11_drift_bound`); this file is
+   its real-number core (`c11_drift_step`). *)
 Require Import Reals Lra Lia Psatz ZArith List.
 From Flocq Require Import Core Calc.Operations.
 From Dasp Require Import Dsp.RmsErr.
